@@ -48,6 +48,8 @@ func checkC18(c *Ctx, r *Report) {
 	metaDataRule(c, r)
 	metaReachesValues(c, r, "R18b")
 	metaReachesMessages(c, r)
+	r.Rule("R18c", "interface-keyed maps (what the YAML front-end hands over) are read like string-keyed ones: every reflect.Value.String() on a key or value is taken after the interface was chased and the kind tested to be String", 3)
+	valueStringRule(c, r, "R18c")
 }
 
 func frontNewConfig(c *Ctx, r *Report, fe string, fn *ssa.Function) []string {
